@@ -417,8 +417,12 @@ impl Prop for C15 {
             if field("reason=") != Some(r.to_string()) { return Err("peer-down reason differs from byte 48".into()); }
             let f = if b[48] == 2 { u16::from_be_bytes([b[49], b[50]]).to_string() } else { "none".into() };
             if field("fsm=") != Some(f.clone()) { return Err(format!("peer-down FSM code should be {}", f)); }
-            let n = if (b[48] == 1 || b[48] == 3) && b.len() > 49 { hex(&b[49..]) } else { "none".into() };
-            if field("notif=") != Some(n) { return Err("peer-down NOTIFICATION is not the bytes after the reason".into()); }
+            // the embedded NOTIFICATION: as many bytes as its own length field says
+            let n = if (b[48] == 1 || b[48] == 3) && b.len() > 49 {
+                let l = u16::from_be_bytes([b[49 + 16], b[49 + 17]]) as usize;
+                hex(&b[49..49 + l])
+            } else { "none".into() };
+            if field("notif=") != Some(n) { return Err("peer-down NOTIFICATION is not the message that follows the reason".into()); }
         }
         if reply.starts_with("SR ") {
             let c = u32::from_be_bytes([b[48], b[49], b[50], b[51]]);
